@@ -87,6 +87,23 @@ CHECKS = {
         technique="Lean 4 proof by structural induction on type terms + exhaustive pairwise correspondence",
         ref="§5 C14",
     ),
+    "C16": dict(
+        text=("Proof (Lean 4) over all permutations a Go map may be iterated in: any two sorted permutations of the same entries are equal "
+              "when the comparator is asymmetric and total on the entries (sort_unique — covers map-order and sort instability at once); "
+              "the repaired position comparator is a strict total order, so imported declarations get one order (imported_decl_order_unique), "
+              "with a kernel-checked witness that the old comparator was not asymmetric; 'deliver the first error' is permutation-invariant "
+              "iff at most one entry fails, and always after sorting by a total key (first_error_perm_invariant / _after_sort, witness of the "
+              "dependence otherwise); frees of distinct blocks and counting commute; and site_inventory_covered: EVERY order-sensitive site "
+              "of the current source — regenerated on every run by a typed go/packages scan (map ranges, maps.Keys/Values, sorts, binary "
+              "searches in front end, code generator, linker driver; 32 sites) — is classified, so a new map range breaks the proof. Tie: "
+              "T-gen inventory + repetition sweep: crafted inputs with >=2 candidates at each site, repository programs and mutants, each "
+              "parsed 64x (thorough 256x) in one process and 4x in several fresh processes; verdict + diagnostic sequence must be identical. "
+              "Three defects found this way were repaired. The classification of a site as 'commutes'/'linkArgs' is by reading the code "
+              "(not proved per site); runtime orders are sampled."),
+        note=TB + "Go's sort.Slice assumed to return a permutation sorted w.r.t. the comparator; linker/LLVM argument order trusted.",
+        technique="Lean 4 proof over all permutations + regenerated typed inventory of order-sensitive sites + repetition sweep",
+        ref="§5 C16",
+    ),
     "C19": dict(
         text=("Proof (Lean 4): the three hand-written escape tables (scanner case list, parseChar, parseString — regenerated from the "
               "source) agree with each other and with the specification's escape map for every character; all images are single bytes (the "
